@@ -53,6 +53,8 @@ def run(ctx):
     _summary_interpreted(ctx, r8, repo)
     r9 = ctx.rule("C12.R9", "REBUILD (interpreted): for each of the seven modifier types: the requirement its module declares -> the merged settings -> the parameter-set object (real classes) -> what Workspace.build writes for it -> merged again with that as the measurement's configuration: the second merge is accepted (build emits no setting the modifier does not use) and gives back the same inits, bounds, fixed flag and constraint settings; observations are cut with the configuration's channel slices in channel order", "REBUILD", floor=7)
     _rebuild_interpreted(ctx, r9, repo)
+    r11 = ctx.rule("C12.R11", "ACCESSORS (interpreted): _ModelConfig.__init__ + set_parameters with real parameter-set objects registered in a NON-alphabetical order (a scalar free set, a 2-component Gaussian set with mixed fixed flags, a 3-component Poisson set, a scalar fixed set), then every accessor: par_order, par_slice / param_set per name, npars, suggested_init / bounds / fixed (the concatenation of each set's own values in parameter order), par_names (name, or name[i] from 0), and set_poi -> poi_index = the first component of the named set; a multi-component or undeclared POI is refused", "ACCESSORS", floor=8)
+    _config_accessors(ctx, r11, repo)
     r10 = ctx.rule("C12.R10", "SETTINGS-HISTORY: a parameter set's suggested fixed flags read after they were assigned (the documented way of changing a model's defaults: a bool, a list, a bool again, in any order, with reads in between) are what was assigned last, one entry per component", "HISTORY", floor=3)
     _paramset_history(ctx, r10, repo)
 
@@ -610,3 +612,91 @@ def _paramset_history(ctx, rid, repo):
             ctx.violated(rid, getter, f"{cname}.suggested_fixed", f"raises {e.exc_name}")
         except errs as e:
             ctx.unrecognised(rid, getter, f"{cname}.suggested_fixed", f"not interpretable: {type(e).__name__}: {e}")
+
+
+def _config_accessors(ctx, rid, repo):
+    from ..alg import RaisedInFragment
+    from ..objmodel import Instance, World
+    PS = "src/pyhf/parameters/paramsets.py"
+    psm = repo.module(PS)
+    mc = repo.cls(PDF, "_ModelConfig")
+    mix = repo.cls(MIX, "_ChannelSummaryMixin")
+    for m_ in mc.methods.values():
+        ctx.touch(m_)
+    at = Poly.atom
+    errs = (Undecided, KeyError, TypeError, ValueError, IndexError, AttributeError)
+    try:
+        w = World({"__strict__": True}, module_env={"log": Obj("log"), "exceptions": Obj("exceptions"), "pyhf": Obj("pyhf")})
+        w.add_class(mix).add_class(mc)
+        for c_ in psm.classes.values():
+            w.add_class(c_)
+
+        def pset(cls, name, n, fixed, **extra):
+            return w.new(psm.classes[cls], [], {"name": name, "n_parameters": Poly.const(n), "inits": [at(f"{name}_i{j}") for j in range(n)], "bounds": [(at(f"{name}_l{j}"), at(f"{name}_h{j}")) for j in range(n)], "fixed": fixed, "is_scalar": n == 1 and cls == "unconstrained", **extra})
+
+        sets = [("zeta", pset("unconstrained", "zeta", 1, False)),
+                ("beta", pset("constrained_by_normal", "beta", 2, [False, True], auxdata=[at("ba0"), at("ba1")])),
+                ("mu", pset("unconstrained", "mu", 1, True)),
+                ("alpha", pset("constrained_by_poisson", "alpha", 3, False, auxdata=[at("aa0"), at("aa1"), at("aa2")], factors=[at("af0"), at("af1"), at("af2")]))]
+        spec = {"channels": [{"name": "c", "samples": [{"name": "s", "data": [at("d0")], "modifiers": [{"name": n_, "type": "normfactor", "data": None} for n_, _ in sets]}]}]}
+        cfg = Instance(mc)
+        w.call_method(cfg, "__init__", [spec], {})
+        w.call_method(cfg, "set_parameters", [{n_: p_ for n_, p_ in sets}])
+    except RaisedInFragment as e:
+        ctx.violated(rid, mc, "_ModelConfig set up", f"raises {e.exc_name} on well-formed parameter sets")
+        return
+    except errs as e:
+        ctx.unrecognised(rid, mc, "_ModelConfig set up", f"not interpretable: {type(e).__name__}: {e}")
+        return
+    order = [n_ for n_, _ in sets]
+    sizes = {"zeta": 1, "beta": 2, "mu": 1, "alpha": 3}
+    starts, pos = {}, 0
+    for n_ in order:
+        starts[n_] = pos
+        pos += sizes[n_]
+
+    def s_(v):
+        if isinstance(v, (list, tuple)):
+            return [s_(x) for x in v]
+        return v if isinstance(v, (bool, str)) or v is None else str(to_poly(v))
+
+    def sl(v):
+        if isinstance(v, slice):
+            return (v.start, v.stop)
+        if isinstance(v, Obj):
+            return tuple(int(to_poly(v.attrs.get(k_)).const_value()) for k_ in ("start", "stop"))
+        return None
+
+    def judge(label, got, want, where):
+        if got == want:
+            ctx.holds(rid, f"{PDF}::_ModelConfig.{label}", str(want)[:120])
+        else:
+            ctx.violated(rid, mc.methods.get(where) or mc, f"_ModelConfig.{label}", f"`{label}` of a configuration whose parameter sets were registered as {order} (sizes {[sizes[n_] for n_ in order]}) is not what the sets themselves say, in parameter order", expected=str(want)[:300], found=str(got)[:300])
+
+    def call(name, *a):
+        return w.call_method(cfg, name, list(a))
+
+    try:
+        judge("par_order", list(w.get_property(cfg, "par_order")), order, "par_order")
+        judge("npars", int(to_poly(cfg.attrs.get("npars")).const_value()), pos, "set_parameters")
+        judge("par_slice(name)", {n_: sl(call("par_slice", n_)) for n_ in order}, {n_: (starts[n_], starts[n_] + sizes[n_]) for n_ in order}, "par_slice")
+        judge("param_set(name)", {n_: call("param_set", n_) is p_ for n_, p_ in sets}, {n_: True for n_ in order}, "param_set")
+        judge("suggested_init()", s_(call("suggested_init")), [f"{n_}_i{j}" for n_ in order for j in range(sizes[n_])], "suggested_init")
+        judge("suggested_bounds()", s_(call("suggested_bounds")), [[f"{n_}_l{j}", f"{n_}_h{j}"] for n_ in order for j in range(sizes[n_])], "suggested_bounds")
+        judge("suggested_fixed()", s_(call("suggested_fixed")), [False, False, True, True, False, False, False], "suggested_fixed")
+        judge("par_names", list(w.get_property(cfg, "par_names")), ["zeta", "beta[0]", "beta[1]", "mu", "alpha[0]", "alpha[1]", "alpha[2]"], "par_names")
+        call("set_poi", "mu")
+        judge("set_poi('mu') -> poi_name, poi_index", (w.get_property(cfg, "poi_name"), int(to_poly(w.get_property(cfg, "poi_index")).const_value())), ("mu", starts["mu"]), "set_poi")
+        for bad, why in (("alpha", "a parameter set with several components"), ("nope", "a name the model does not declare")):
+            try:
+                call("set_poi", bad)
+                ctx.violated(rid, mc.methods["set_poi"], f"set_poi({bad!r})", f"{why} is accepted as parameter of interest", expected="raise InvalidModel")
+            except RaisedInFragment as e:
+                if e.exc_name.split(".")[-1] == "InvalidModel":
+                    ctx.holds(rid, f"{PDF}::_ModelConfig.set_poi({bad!r})", "refused with InvalidModel")
+                else:
+                    ctx.violated(rid, mc.methods["set_poi"], f"set_poi({bad!r})", f"raises {e.exc_name}", expected="InvalidModel")
+    except RaisedInFragment as e:
+        ctx.violated(rid, mc, "_ModelConfig accessors", f"an accessor raises {e.exc_name}")
+    except errs as e:
+        ctx.unrecognised(rid, mc, "_ModelConfig accessors", f"not interpretable: {type(e).__name__}: {e}")
